@@ -13,14 +13,14 @@ def run(ck):
     # negative controls: commuting operators / no negative expectation must be rejected - otherwise the sign part of
     # BubbleIsFock and Anticommute would be vacuous
     ck.cov["negative_controls"] = []
-    for inv in ("ControlCommute", "ControlNeverNegative"):
+    for inv in ("ControlCommute", "ControlNeverNegative") if not ck.selftest else ():
         ncfg = os.path.join(ck.scratch, f"MC_LocalOpsN_{inv}.cfg")
         open(ncfg, "w").write(f"SPECIFICATION Spec\nCONSTANTS\n  NModes = 2\n  MaxLen = 4\nINVARIANT {inv}\nCHECK_DEADLOCK FALSE\n")
         r, st = ck.model("MC_LocalOps.tla", ncfg, workers=1, expect_ok=False)
         ck.cov["models"][-1]["negative_control"] = True    # stops at the expected counterexample, hence not "complete"
         hit = f"Invariant {inv} is violated" in r["out"]
         ck.cov["negative_controls"].append({"instance": "2 modes, strings up to 4", "invariant": inv, "violated_as_expected": hit})
-        if not hit and not ck.selftest:    # (the self-test of the trace binding skips the pure models)
+        if not hit:
             ck.problems.append(f"negative control {inv} was not rejected by MC_LocalOps")
     q = ck.tier == "quick"
     tids = gen.Tids()
